@@ -42,10 +42,51 @@ def fl_op(rng, keys, u, whole=0.12):
     return o
 
 
+def join64_job(rng, jid, u):
+    """A writer joins a resize from help_transfer (HLoadTi / HCasJoin). With the crate's `i = next_index` the thread that
+    starts a resize leaves it at once, so a forwarding marker is visible while size_ctl is still joinable and
+    transfer_index > 0 only if a second thread has joined through add_count before the first one left, in a table of >= 64
+    bins (four strides of 16). Scripted: A starts 64 -> 128 and claims [48, 64); B joins through add_count and claims
+    [32, 48) with i = 48; A leaves; B forwards the (empty) bin 48; C's operation on a key of bin 48 meets the marker."""
+    pre = rng.sample([k for k in range(1, 64) if k != 48], 47)
+    prefix = [gen.ins(k, u) for k in pre]
+    a, b = rng.sample([64 + k for k in range(1, 48) if k not in (48,)], 2)
+    ck = 48 + 64 * rng.randint(0, 2)
+    cop = rng.choice(["insert", "insert", "try_insert", "remove", "compute"])
+    c = gen.ins(ck, u) if cop == "insert" else {"op": cop, "k": ck, "n": u.next()}
+    if cop == "try_insert":
+        c.update(tag=1, pl=0)
+    if cop == "compute":
+        c.update(f="inc")
+    threads = [[gen.ins(a, u)], [gen.ins(b, u)], [c] + [fl_op(rng, pre[:8] + [ck], u, whole=0) for _ in range(rng.randint(0, 2))]]
+    script = [{"run": 0, "until": {"kind": "word", "w": "ti", "acc": "cas", "nth": 1}},
+              {"run": 1, "until": {"kind": "word", "w": "ti", "acc": "cas", "nth": 1}},
+              {"run": 0, "until": {"kind": "word", "w": "sc", "acc": "cas", "nth": 1}},
+              {"run": 1, "until": {"kind": "cas", "ty": "bin", "nth": 1}}]
+    if rng.random() < 0.5:
+        script.append({"run": 2, "until": {"kind": "word", "w": "ti", "acc": "cas", "nth": 1}})
+    return {"id": jid, "cfg": "fl-join64", "kind": "map", "pin": rng.random() < 0.3, "scope": rng.choice(["op", "thread"]),
+            "hasher": gen.table_hasher({}), "cap": 42, "batch": 0, "prefix": prefix, "threads": threads, "script": script,
+            "sched": gen.schedule(rng, 3, 800), "finals": sorted(pre + [a, b, ck]), "rec": ["step", "site"], "budget": 400000}
+
+
 def flurry_job(rng, jid, whole=0.12):
     """small tables (2..16 bins), 3..10 keys, identical / colliding / spread hashes; several resize
     generations are crossed with a handful of insertions"""
     u = gen.Uids()
+    if rng.random() < 0.05:
+        return join64_job(rng, jid, u)
+    if rng.random() < 0.04:
+        # reserve() on a map without a table (try_presize allocates it itself) racing the lazy initialisation by inserts
+        nt = rng.choice([2, 3])
+        keys = list(range(1, 7))
+        threads = [[{"op": "reserve", "n": rng.choice([1, 2, 3, 5, 9, 20])}] + [fl_op(rng, keys, u, whole=0.1) for _ in range(rng.randint(0, 2))]]
+        for _ in range(nt - 1):
+            threads.append([rng.choice([gen.ins(rng.choice(keys), u), {"op": "reserve", "n": rng.choice([1, 3, 9])}])] +
+                           [fl_op(rng, keys, u, whole=0.1) for _ in range(rng.randint(0, 2))])
+        return {"id": jid, "cfg": "fl-reserve-null", "kind": "map", "pin": rng.random() < 0.3, "scope": rng.choice(["op", "thread"]),
+                "hasher": gen.table_hasher({}), "cap": 0, "batch": 0, "prefix": [], "threads": threads,
+                "sched": gen.schedule(rng, nt, 300), "finals": keys, "rec": ["step", "site"], "budget": 200000}
     if rng.random() < 0.15:
         # 32 bins, one insertion short of the threshold: the resize to 64 has two strides of 16, so helpers
         # (add_count joiners, help_transfer joiners) claim their own ranges
